@@ -17,6 +17,7 @@ from vp import storemodel as SM
 # key classes
 P, A, L, N = "present", "absent", "stored_later", "none_valued"
 B, M = "bytearray_valued", "mutable_list"  # values whose stored form differs from the live object
+F, Z, E = "frame_valued", "ndarray_valued", "empty_frame_valued"  # values without a plain truth value / falsy containers
 ALPHABET = (
     [("has", k) for k in (P, A, L, N)]
     + [("fetch", k) for k in (P, A, L, N)]
@@ -24,6 +25,7 @@ ALPHABET = (
     + [("sync", None), ("fetch_paths", None), ("fetch_paths_absent", None)]
 )
 LIVE_OPS = [("store", B), ("fetch", B), ("has", B), ("store", M), ("fetch", M), ("has", M), ("fetch", P)]
+ARRAY_OPS = [("store", F), ("fetch", F), ("has", F), ("store", Z), ("fetch", Z), ("store", E), ("fetch", E), ("fetch", P)]
 # path operations that move one path between two keys and back (A, B, A ...)
 PATH_OPS = [("sync_q_to", P), ("sync_q_to", N), ("sync_r_to", P), ("sync", None), ("fetch_paths", None)]
 EXTRA_KEYS = ["x%d" % i for i in range(12)]  # to fill / overflow the cache
@@ -35,13 +37,27 @@ def value_of(k):
         return bytearray(b"value-of-bytearray")
     if k == M:
         return [1, 2, "value-of-mutable"]
+    if k == F:
+        return SM.result_value("frame_labels")
+    if k == E:
+        return SM.result_value("frame_labels").iloc[0:0]
+    if k == Z:
+        import numpy
+
+        return numpy.arange(6).reshape(2, 3)
     return None if k == N else SM.Obj("value-of-" + k)
 
 
 def _typed(ans):
     """fetch answers are compared with their type (bytearray(b'x') == b'x' in Python)."""
     if ans[0] == "ok":
-        return ("ok", type(ans[1]).__name__, ans[1])
+        v = ans[1]
+        tn = type(v).__name__
+        if tn == "DataFrame":
+            v = (v.to_json(orient="split"), [str(t) for t in v.dtypes], str(v.index.dtype))
+        elif tn == "ndarray":
+            v = (v.tolist(), str(v.dtype))
+        return ("ok", tn, v)
     return ans
 
 
@@ -228,6 +244,7 @@ def run(tier, seed):
     liveseqs = []
     for n in range(2, 4 if tier == "quick" else 5):
         liveseqs += [list(t) for t in itertools.product(LIVE_OPS, repeat=n)]
+        liveseqs += [list(t) for t in itertools.product(ARRAY_OPS, repeat=n) if n <= 3]
     pathseqs = []
     for n in range(2, 5 if tier == "quick" else 7):
         pathseqs += [list(t) for t in itertools.product(PATH_OPS, repeat=n)]
